@@ -217,6 +217,12 @@ var c09Templates = []string{
 	"(%s) / (%s)",
 	"%s + on(a) group_right %s",
 	"max_over_time(%s[2m]) - min_over_time(%s[2m])",
+	"%s + on() %s",
+	"%s * ignoring() %s",
+	"%s - on() group_left %s",
+	"%s offset 1m + %s",
+	"%s @ 3630 - %s",
+	"sum_over_time(%s[1m] offset 2m) - sum_over_time(%s[1m])",
 }
 
 func c09Dataset(w Window) Dataset {
@@ -270,6 +276,31 @@ func (p c09Prop) Gen(seed uint64, tier string, i int) Case {
 	}
 	c.Engine.Procs = Pick(r, []int{2, 4, 8})
 	c.Dataset = c09Dataset(c.Window)
+	if r.P(0.6) {
+		// a lone series on the second metric (and sometimes on the first): one-to-one matches on
+		// on()/ignoring() lists become possible instead of ambiguous
+		keep1 := r.Intn(9)
+		keep0 := -1
+		if r.P(0.5) {
+			keep0 = r.Intn(9)
+		}
+		var ds Dataset
+		i0, i1 := 0, 0
+		for _, s := range c.Dataset.Series {
+			if s.Labels["__name__"] == "m1" {
+				if i1 == keep1 {
+					ds.Series = append(ds.Series, s)
+				}
+				i1++
+			} else {
+				if keep0 < 0 || i0 == keep0 {
+					ds.Series = append(ds.Series, s)
+				}
+				i0++
+			}
+		}
+		c.Dataset = ds
+	}
 	sels := c09Selectors()
 	enumPairs, sampled, _ := p.counts(tier)
 	mk := func(si, sj, tmpl int, twoMetrics bool) string {
@@ -294,7 +325,13 @@ func (p c09Prop) Gen(seed uint64, tier string, i int) Case {
 		k /= 2
 		c.Query = mk(k/25, k%25, 0, two)
 	case i < enumPairs+sampled:
-		c.Query = mk(r.Intn(len(sels)), r.Intn(len(sels)), r.Intn(len(c09Templates)), r.P(0.5))
+		pickSel := func() int {
+			if r.P(0.6) {
+				return r.Intn(25) // at most one matcher
+			}
+			return r.Intn(len(sels))
+		}
+		c.Query = mk(pickSel(), pickSel(), r.Intn(len(c09Templates)), r.P(0.5))
 		if r.P(0.15) { // triples
 			c.Query = fmt.Sprintf("(%s) + m0%s", c.Query, sels[r.Intn(len(sels))])
 		}
